@@ -384,4 +384,75 @@ theorem firstIdx_next : ∀ (ress : List Int) (i : Nat) (r : Int),
     simp [firstIdx, this]
     exact firstIdx_next xs i r hx.2 h
 
+/-! ### what a built set holds, and what `getFor` can return (used by the store specification) -/
+
+theorem addAt_mem : ∀ (ress : List Int) (blocks : List (List Block)) (b : Block) (blocks' : List (List Block)),
+    addAt ress blocks b = some blocks' → ∀ x ∈ blocks'.flatten, x = b ∨ x ∈ blocks.flatten
+  | [], _, _, _, h => by simp [addAt] at h
+  | _ :: _, [], _, _, h => by simp [addAt] at h
+  | r :: rs, bs :: bss, b, blocks', h => by
+    simp only [addAt] at h
+    split at h
+    · simp at h
+      subst h
+      intro x hx
+      rw [List.flatten_cons, List.mem_append] at hx
+      rcases hx with hx | hx
+      · rcases (mem_insert b bs x).mp hx with h1 | h1
+        · exact Or.inl h1
+        · exact Or.inr (by rw [List.flatten_cons]; exact List.mem_append_left _ h1)
+      · exact Or.inr (by rw [List.flatten_cons]; exact List.mem_append_right _ hx)
+    · cases hrec : addAt rs bss b with
+      | none => simp [hrec] at h
+      | some bl =>
+        simp [hrec] at h
+        subst h
+        intro x hx
+        rw [List.flatten_cons, List.mem_append] at hx
+        rcases hx with hx | hx
+        · exact Or.inr (by rw [List.flatten_cons]; exact List.mem_append_left _ hx)
+        · rcases addAt_mem rs bss b bl hrec x hx with h1 | h1
+          · exact Or.inl h1
+          · exact Or.inr (by rw [List.flatten_cons]; exact List.mem_append_right _ h1)
+
+theorem addAll_mem : ∀ (bs : List Block) (s : BSet), ∀ x ∈ (addAll s bs).1.blocks.flatten, x ∈ bs ∨ x ∈ s.blocks.flatten
+  | [], s, x, hx => by simp only [addAll] at hx; exact Or.inr hx
+  | b :: bs, s, x, hx => by
+    simp only [addAll] at hx
+    cases ha : add s b with
+    | none =>
+      rw [ha] at hx
+      rcases addAll_mem bs s x (by simpa using hx) with h | h
+      · exact Or.inl (List.mem_cons_of_mem _ h)
+      · exact Or.inr h
+    | some s' =>
+      rw [ha] at hx
+      rcases addAll_mem bs s' x (by simpa using hx) with h | h
+      · exact Or.inl (List.mem_cons_of_mem _ h)
+      · unfold add at ha
+        cases hb : addAt s.ress s.blocks b with
+        | none => simp [hb] at ha
+        | some bl =>
+          simp [hb] at ha
+          subst ha
+          rcases addAt_mem _ _ _ _ hb x h with h1 | h1
+          · exact Or.inl (by simp [h1])
+          · exact Or.inr h1
+
+theorem getFor_sound {dd guard : Bool} {s : BSet} {mint maxt maxRes : Int} {r : List Block} {x : Block}
+    (hg : getFor dd guard s mint maxt maxRes = some r) (hx : x ∈ r) :
+    x ∈ s.blocks.flatten ∧ mint < x.maxt ∧ x.mint ≤ maxt := by
+  unfold getFor at hg
+  split at hg
+  · simp at hg; subst hg; simp at hx
+  · simp only at hg
+    split at hg
+    · simp at hg
+      subst hg
+      obtain ⟨⟨l, hl, hxl⟩, _, h1, h2⟩ := getForL_sound dd _ mint maxt x hx
+      exact ⟨List.mem_flatten.mpr ⟨l, List.mem_of_mem_drop hl, hxl⟩, h1, h2⟩
+    · split at hg
+      · simp at hg; subst hg; simp at hx
+      · simp at hg
+
 end Thanos.BlockSet
